@@ -574,6 +574,14 @@ def logical_schemas():
             {"name": "tu", "type": sch("long", "time-micros")}, {"name": "sm", "type": sch("long", "timestamp-millis")},
             {"name": "su", "type": sch("long", "timestamp-micros")}, {"name": "lm", "type": sch("long", "local-timestamp-millis")},
             {"name": "lu", "type": sch("long", "local-timestamp-micros")}, {"name": "u", "type": sch("string", "uuid")}]},
+        # decimals: scale omitted, 0 and positive; bytes and fixed; alone, nested and by reference
+        {"type": "bytes", "logicalType": "decimal", "precision": 6},
+        {"type": "bytes", "logicalType": "decimal", "precision": 6, "scale": 0},
+        {"type": "record", "name": "LD", "fields": [
+            {"name": "a", "type": {"type": "bytes", "logicalType": "decimal", "precision": 10, "scale": 3}},
+            {"name": "b", "type": {"type": "fixed", "name": "Dec4", "size": 4, "logicalType": "decimal", "precision": 9}},
+            {"name": "c", "type": {"type": "fixed", "name": "Dec8", "size": 8, "logicalType": "decimal", "precision": 18, "scale": 0}},
+            {"name": "d", "type": ["null", "Dec4"]}]},
     ]
 
 
